@@ -134,3 +134,61 @@ func deepCopy(v interface{}) interface{} {
 	}
 	return v
 }
+
+// typedVariant rebuilds a generic JSON tree with Go-native typed containers where the members
+// allow it ([]map[string]interface{}, []string, []float64): callers may hand such values to Eval,
+// and code that special-cases []interface{} / map[string]interface{} must not treat the others
+// as private or immutable.
+func typedVariant(v interface{}) interface{} {
+	switch x := v.(type) {
+	case map[string]interface{}:
+		out := make(map[string]interface{}, len(x))
+		for k, e := range x {
+			out[k] = typedVariant(e)
+		}
+		return out
+	case []interface{}:
+		if len(x) == 0 {
+			return x
+		}
+		allMap, allStr, allNum := true, true, true
+		for _, e := range x {
+			switch e.(type) {
+			case map[string]interface{}:
+				allStr, allNum = false, false
+			case string:
+				allMap, allNum = false, false
+			case float64:
+				allMap, allStr = false, false
+			default:
+				allMap, allStr, allNum = false, false, false
+			}
+		}
+		switch {
+		case allMap:
+			out := make([]map[string]interface{}, len(x))
+			for i, e := range x {
+				out[i] = typedVariant(e).(map[string]interface{})
+			}
+			return out
+		case allStr:
+			out := make([]string, len(x))
+			for i, e := range x {
+				out[i] = e.(string)
+			}
+			return out
+		case allNum:
+			out := make([]float64, len(x))
+			for i, e := range x {
+				out[i] = e.(float64)
+			}
+			return out
+		}
+		out := make([]interface{}, len(x))
+		for i, e := range x {
+			out[i] = typedVariant(e)
+		}
+		return out
+	}
+	return v
+}
